@@ -21,8 +21,10 @@ MUTANTS = [
     M("patch-cross-binding", F, "    providers.aes_cbc_decrypt = aes_cbc_decrypt\n", "    providers.aes_cbc_decrypt = aes_ecb_decrypt\n", "C20-PATCH"),
     M("shift-rows-gather-rebinds-parameter", F, "def _shift_rows(state: list[int]) -> None:\n    for row in range(1, 4):\n        row_bytes = [state[row + 4 * col] for col in range(4)]\n        row_bytes = row_bytes[row:] + row_bytes[:row]\n        for col in range(4):\n            state[row + 4 * col] = row_bytes[col]\n", "_SR_SOURCE = tuple((i + 4 * (i % 4)) % 16 for i in range(16))\n\n\ndef _shift_rows(state: list[int]) -> None:\n    state = [state[source] for source in _SR_SOURCE]\n", "C20-MIX"),
     M("shift-rows-gather-inverse-table", F, "def _shift_rows(state: list[int]) -> None:\n    for row in range(1, 4):\n        row_bytes = [state[row + 4 * col] for col in range(4)]\n        row_bytes = row_bytes[row:] + row_bytes[:row]\n        for col in range(4):\n            state[row + 4 * col] = row_bytes[col]\n", "_SR_SOURCE = tuple((i - 4 * (i % 4)) % 16 for i in range(16))\n\n\ndef _shift_rows(state: list[int]) -> None:\n    state[:] = [state[source] for source in _SR_SOURCE]\n", "C20-MIX"),
+    M("cached-schedule-reversed-in-place", F, "    round_keys = _get_round_keys(key)\n    data_view = memoryview(data)\n    out = bytearray(len(data_view))\n    offset = 0\n    for block in _chunks(data_view, 16):\n        out[offset : offset + 16] = _aes_decrypt_block(block, round_keys)", "    round_keys = _get_round_keys(key)\n    round_keys.reverse()\n    data_view = memoryview(data)\n    out = bytearray(len(data_view))\n    offset = 0\n    for block in _chunks(data_view, 16):\n        out[offset : offset + 16] = _aes_decrypt_block(block, round_keys)", "C20-KEY"),
 ]
 TWINS = [
+    T("schedule-copied-before-reversing", F, "    round_keys = _get_round_keys(key)\n    data_view = memoryview(data)\n    out = bytearray(len(data_view))\n    offset = 0\n    for block in _chunks(data_view, 16):\n        out[offset : offset + 16] = _aes_decrypt_block(block, round_keys)", "    round_keys = _get_round_keys(key)\n    schedule_copy = list(round_keys)\n    schedule_copy.reverse()\n    schedule_copy.reverse()\n    data_view = memoryview(data)\n    out = bytearray(len(data_view))\n    offset = 0\n    for block in _chunks(data_view, 16):\n        out[offset : offset + 16] = _aes_decrypt_block(block, round_keys)"),
     T("shift-rows-as-one-gather", F, "def _shift_rows(state: list[int]) -> None:\n    for row in range(1, 4):\n        row_bytes = [state[row + 4 * col] for col in range(4)]\n        row_bytes = row_bytes[row:] + row_bytes[:row]\n        for col in range(4):\n            state[row + 4 * col] = row_bytes[col]\n", "_SR_SOURCE = tuple((i + 4 * (i % 4)) % 16 for i in range(16))\n\n\ndef _shift_rows(state: list[int]) -> None:\n    state[:] = [state[source] for source in _SR_SOURCE]\n"),
     T("mix-columns-in-place-xtime-form", "sharepoint2text/parsing/extractors/pdf/_pypdf_aes_fallback.py", "    for col in range(4):\n        i = 4 * col\n        a0, a1, a2, a3 = state[i : i + 4]\n        state[i + 0] = _MUL2[a0] ^ _MUL3[a1] ^ a2 ^ a3\n        state[i + 1] = a0 ^ _MUL2[a1] ^ _MUL3[a2] ^ a3\n        state[i + 2] = a0 ^ a1 ^ _MUL2[a2] ^ _MUL3[a3]\n        state[i + 3] = _MUL3[a0] ^ a1 ^ a2 ^ _MUL2[a3]\n", "    for i in (0, 4, 8, 12):\n        first = state[i]\n        t = state[i] ^ state[i + 1] ^ state[i + 2] ^ state[i + 3]\n        state[i] ^= t ^ _MUL2[state[i] ^ state[i + 1]]\n        state[i + 1] ^= t ^ _MUL2[state[i + 1] ^ state[i + 2]]\n        state[i + 2] ^= t ^ _MUL2[state[i + 2] ^ state[i + 3]]\n        state[i + 3] ^= t ^ _MUL2[state[i + 3] ^ first]\n"),
     T("unpad-lower-bound-zero-is-equivalent", F, "if padding < 1 or padding > block_size:", "if padding < 0 or padding > block_size:"),
@@ -49,7 +51,7 @@ SEEDED = [
     ("C20-11", "C20-WRAP"),
     ("C20-13", "C20-LEN"),
     ("C20-12", "C20-MIX"),
-    ("C20-14", "C20-LEN"),
+    ("C20-14", "C20-KEY"),
     ("C20-15", "C20-MIX"),
 ]
 MUTANTS = list(MUTANTS) + [_P("seed-" + sid, _os.path.join(_SEEDS, sid, "patch.diff"), rule) for sid, rule in SEEDED if _os.path.exists(_os.path.join(_SEEDS, sid, "patch.diff"))]
